@@ -181,6 +181,17 @@ def run(tier):
                     for err in [e for e in errs if not e.startswith("KNOWN:")][:2]:
                         R.violation(f"{vname}: {err}", dict(c.to_json(), version=vname, schema=docs[vname]))
                     R.count("vocabulary_checked:" + vname)
+                    # definitions shared by deserialization and serialization go through the same conversion
+                    try:
+                        both = json.loads(json.dumps(definitions_schema(
+                            deserialization=[U.type(c.t)], serialization=[U.type(c.t)], version=V, all_refs=True,
+                            additional_properties=c.opts["additional_properties"], aliaser=G.ALIASERS[c.opts["aliaser"]][0])))
+                        errs2 = [e for comp in both.values() for e in vocabulary_errors(vname, comp, V.ref_prefix) if not e.startswith("KNOWN:")]
+                        for err in errs2[:1]:
+                            R.violation(f"{vname}: definitions_schema(deserialization=[T], serialization=[T]): {err}",
+                                        dict(c.to_json(), version=vname, definitions=both))
+                    except (TypeError, ValueError):
+                        R.count("definitions_both_sides_refused")       # different schemas for the two directions, non-string keys
                     if vname in VALIDATORS:
                         try:
                             VALIDATORS[vname].check_schema(to_resolvable(with_components(docs, vname), vname))
